@@ -2,10 +2,11 @@
    the webp model).  Statements only; proofs in Base/ProgProofs.v (generic) and Mp4/SanProgProofs.v.
    Vocabulary: Base/Prog.v (run, run_trace, cursor), Base/ProgSpec.v (trace_of, read_span, agree_on, covered, all_steps),
    Mp4/TraceSpec.v (the monitor mp4_mstep of allowed operation sequences; read_confined, alloc_bounded),
-   Mp4/San.v (sanitize_prog, mp4_sanitize). *)
+   Mp4/San.v (sanitize_prog, mp4_sanitize), Mp4/Spec.v (tiling, tbox, is, FTYP, MOOV). *)
 From Coq Require Import List NArith Bool.
 From Coq.Strings Require Import Byte.
-From MS Require Import Base.Bytes Base.Outcome Base.Prog Base.ProgSpec Base.ProgProofs Mp4.San Mp4.TraceSpec Mp4.SanProgProofs.
+From MS Require Import Base.Bytes Base.Outcome Base.Prog Base.ProgSpec Base.ProgProofs Mp4.San Mp4.Spec Mp4.TraceSpec Mp4.SanProgProofs
+  Mp4.SanTiledProofs.
 Import ListNotations.
 Open Scope N_scope.
 
@@ -49,6 +50,24 @@ Theorem C10_media_noninterference : forall (cfg : config) (fuel : nat) (i1 i2 : 
   mp4_sanitize cfg lenient max_seek i2 fuel = mp4_sanitize cfg lenient max_seek i1 fuel.
 Proof. exact media_noninterference. Qed.
 Print Assumptions C10_media_noninterference.
+
+(* ... and through the specification's tiling (Mp4/Spec.v): on an input that is a sequence of complete top-level boxes
+   bs, with enough fuel, the result depends only on the length, on the HEADER bytes of the boxes and on the payloads of
+   the ftyp and moov boxes: changing any payload byte of any other box (mdat, free, skip, meta, meco, unknown) changes
+   nothing *)
+Theorem C10_media_noninterference_tiled : forall (cfg : config) (fuel : nat) (i1 i2 : input) (lenient : bool) (max_seek : N)
+                                                 (bs : list tbox),
+  ilen i1 <= max_seek -> max_seek <= 18446744073709551615 ->
+  (forall t, cumulative_mdat_box_size cfg = Some t -> t <= 4294967295) ->
+  (N.to_nat (ilen i1 / 8) < fuel)%nat ->
+  ilen i1 = ilen i2 ->
+  tiling (cumulative_mdat_box_size cfg) i1 = Some bs ->
+  (forall b j, In b bs -> tb_off b <= j < tb_off b + tb_hlen b -> iget i1 j = iget i2 j) ->
+  (forall b j, In b bs -> is FTYP b || is MOOV b = true -> tb_off b + tb_hlen b <= j < tb_off b + tb_size b ->
+               iget i1 j = iget i2 j) ->
+  mp4_sanitize cfg lenient max_seek i2 fuel = mp4_sanitize cfg lenient max_seek i1 fuel.
+Proof. exact media_noninterference_tiled. Qed.
+Print Assumptions C10_media_noninterference_tiled.
 
 (* the returned metadata, padding included, is bounded (former finding D6, repaired in /repo by 3c176e3: the padding
    box is no larger than the metadata it follows) *)
